@@ -146,6 +146,9 @@ def gen_impure_stack(rng):
         twin = {'k': 'source', 'cls': 'S0p', 'ids': ['j1', 'j2'],
                 'fields': {'a': {'args': ['i']}, 'b': {'args': ['i']}, 'k': {'args': ['i'], 'table': [[['j1'], 'u'], [['j2'], 'v']]}},
                 'params': {}, 'cargs': {}, 'defaults': {}}
+        if rng.random() < 0.3:
+            # the (possibly impure) dataset has no entries: its functions are still part of the merged pipeline
+            layers[0] = dict(layers[0], ids=[])
         parts = [{'k': 'chain', 'flavour': 'chain', 'layers': [twin] + layers[1:]} if len(layers) > 1 else twin,
                  {'k': 'chain', 'flavour': 'chain', 'layers': layers} if len(layers) > 1 else layers[0]]
         if rng.random() < 0.5:
